@@ -31,32 +31,76 @@ Definition sonar_spec (doc : json) : list finding :=
   flat_map (fun e => if is_open e then sonar_finding_of e else [])
            (arr_or_empty (jget_or_null s_issues doc) ++ arr_or_empty (jget_or_null s_hotspots doc)).
 
-(** Well-formed Sonar document: an object whose issues/hotspots are arrays (or absent/null) of entries that are
-    objects with a string status, a non-empty string rule (or ruleKey) containing ':', and — when a textRange is
-    present — an object textRange (or a falsy one) and a string component. *)
+(** code flows and message, declaratively: `flows`, when present, is a list of objects (or an empty dict/string);
+    each flow's `locations`, when present, likewise a list of objects carrying an object textRange and a string component;
+    `message`, when present and truthy, is a string. *)
+Definition wf_flow_loc (l : json) : bool :=
+  match l with
+  | JObj _ => match jget s_textRange l, jget s_component l with Some (JObj _), Some (JStr _) => true | _, _ => false end
+  | _ => false
+  end.
+Definition list_of (P : json -> bool) (j : json) : bool :=
+  match j with JArr l => forallb P l | JObj [] => true | JStr [] => true | _ => false end.
+Definition wf_flow (f : json) : bool :=
+  match f with
+  | JObj _ => match jget s_locations f with None => true | Some ls => list_of wf_flow_loc ls end
+  | _ => false
+  end.
+Definition wf_flows (e : json) : bool :=
+  match jget s_flows e with None => true | Some fl => list_of wf_flow fl end.
+Definition wf_message (e : json) : bool :=
+  match jget s_message e with
+  | None | Some JNull | Some (JStr _) | Some (JBool false) | Some (JArr []) | Some (JObj []) => true
+  | Some (JNum z) => Z.eqb z 0
+  | Some _ => false
+  end.
+
+(** Well-formed Sonar entry: an object with a string status, a non-empty string rule (or ruleKey) containing ':', and
+    — when a textRange is present — an object textRange (or a falsy one) and a string component; code flows and message
+    as described above. *)
+Definition rule_ok (e : json) : bool :=
+  match jget s_rule e with
+  | Some (JStr (c :: r)) => rule_has_colon (c :: r)
+  | Some (JStr []) | Some JNull | None =>
+      match jget s_ruleKey e with Some (JStr (c :: r)) => rule_has_colon (c :: r) | _ => false end
+  | Some (JBool false) | Some (JArr []) | Some (JObj []) =>
+      match jget s_ruleKey e with Some (JStr (c :: r)) => rule_has_colon (c :: r) | _ => false end
+  | Some (JNum z) =>
+      if Z.eqb z 0 then match jget s_ruleKey e with Some (JStr (c :: r)) => rule_has_colon (c :: r) | _ => false end else false
+  | _ => false
+  end.
+Definition tr_ok (e : json) : bool :=
+  match jget s_textRange e with
+  | None | Some JNull | Some (JBool false) | Some (JStr []) | Some (JArr []) | Some (JObj []) => true
+  | Some (JNum z) => Z.eqb z 0
+  | Some (JObj _) => match jget s_component e with Some (JStr _) => true | _ => false end
+  | _ => false
+  end.
+Definition open_parts_ok (e : json) : bool := rule_ok e && tr_ok e && wf_flows e && wf_message e.
 Definition wf_entry (e : json) : bool :=
   match e with
-  | JObj _ =>
-      match jget s_status e with
-      | Some (JStr _) =>
-          (match jget s_rule e with
-           | Some (JStr (c :: r)) => rule_has_colon (c :: r)
-           | Some (JStr []) | Some JNull | None =>
-               match jget s_ruleKey e with Some (JStr (c :: r)) => rule_has_colon (c :: r) | _ => false end
-           | _ => false
-           end) &&
-          (match jget s_textRange e with
-           | None | Some JNull => true
-           | Some (JObj []) => true
-           | Some (JObj _) => match jget s_component e with Some (JStr _) => true | _ => false end
-           | _ => false
-           end)
-      | _ => false
-      end
+  | JObj _ => match jget s_status e with Some (JStr _) => open_parts_ok e | _ => false end
+  | _ => false
+  end.
+(** what the reader needs of an entry in order not to raise on it: closed entries are only looked at for their status *)
+Definition readable_entry (e : json) : bool :=
+  match e with
+  | JObj _ => match jget s_status e with Some (JStr _) => if is_open e then open_parts_ok e else true | _ => false end
   | _ => false
   end.
 Definition wf_list (j : json) : bool :=
   match j with JNull => true | JArr l => forallb wf_entry l | _ => false end.
+(** container shape only: an object whose issues/hotspots are arrays or absent/null (or another falsy value) *)
+Definition wf_seq (j : json) : bool := match j with JArr _ => true | _ => negb (jtruthy j) end.
+Definition wf_container (doc : json) : bool :=
+  match doc with
+  | JObj _ => wf_seq (jget_or_null s_issues doc) && wf_seq (jget_or_null s_hotspots doc)
+  | _ => false
+  end.
+(** reference extraction that tolerates malformed entries: every open issue and hotspot that is individually readable *)
+Definition sonar_spec_robust (doc : json) : list finding :=
+  flat_map (fun e => if readable_entry e && is_open e then sonar_finding_of e else [])
+           (arr_or_empty (jget_or_null s_issues doc) ++ arr_or_empty (jget_or_null s_hotspots doc)).
 Definition wf_sonar (doc : json) : bool :=
   match doc with
   | JObj _ => wf_list (jget_or_null s_issues doc) && wf_list (jget_or_null s_hotspots doc)
